@@ -536,6 +536,13 @@ def _run_store(case, path):
     roots = [objs[i] for i in case['roots']]
     oids = {}
     model_roots = [introspect(r, oids) for r in roots]
+    if 'query_first' in case.get('flags', []):
+        # interface queries before storing (they cache into the objects / freeze AbstractPT properties)
+        for r in roots:
+            for o in _walk(r):
+                for attr in ('parameter_names', 'measurement_names', 'defined_channels', 'duration', 'integral'):
+                    _outcome(lambda: getattr(o, attr))
+                _outcome(lambda: hash(o))
     backend = _make_backend(case['backend'], path)
     storages = [PulseStorage(backend), PulseStorage(backend)]
     res = []
@@ -1004,6 +1011,23 @@ def shrink(case, obs, ctx):
     identifiers — every candidate is re-run on the implementation and kept only if a stored root still loads back wrong
     and the classification is unchanged"""
     import copy
+    if case.get('kind') == 'hist' and _bad_hist(obs) and 'crash' not in obs and 'hang' not in obs:
+        # fewer operations, as long as a root that must load still does not
+        cls = classify(case, obs)
+        best, bo = case, obs
+        i = 0
+        while i < len(best['hops']) and len(best['hops']) > 1:
+            c = dict(best)
+            c['hops'] = best['hops'][:i] + best['hops'][i + 1:]
+            try:
+                o = run_impl(c)
+            except Exception:   # noqa
+                o = {'crash': 'shrink'}
+            if 'crash' not in o and 'hang' not in o and _bad_hist(o) and classify(c, o) == cls:
+                best, bo = c, o
+            else:
+                i += 1
+        return best, bo
     if case.get('kind') != 'store' or not _bad_loads(obs):
         return case, obs
     cls = classify(case, obs)
